@@ -44,12 +44,38 @@ struct Fx {
 	e: Box<dyn Effect>,
 	dt: f64,
 	info: Info<'static>,
+	_handle: Option<Box<dyn std::any::Any>>,
 }
+thread_local! {
+	/// second pass over every case: the effect is built with OTHER parameters and brought to the parameters of the
+	/// lattice point through its handle (zero-length tween, one silent frame processed) before the first signal
+	static VIA_HANDLE: std::cell::Cell<bool> = const { std::cell::Cell::new(false) };
+}
+fn via() -> bool {
+	VIA_HANDLE.with(|v| v.get())
+}
+fn via_tag() -> &'static str {
+	if via() { " [built with other parameters, then every parameter set through the handle (zero-length tween) and one silent frame processed]" } else { "" }
+}
+const NOW: kira::Tween = kira::Tween { start_time: kira::StartTime::Immediate, duration: Duration::ZERO, easing: kira::Easing::Linear };
 impl Fx {
 	fn new<B: EffectBuilder>(b: B, sr: u32) -> Fx {
 		let (mut e, _handle) = b.build();
 		e.init(sr, IBS);
-		Fx { e, dt: 1.0 / sr as f64, info: MockInfoBuilder::new().build() }
+		Fx { e, dt: 1.0 / sr as f64, info: MockInfoBuilder::new().build(), _handle: None }
+	}
+	/// `other` is built, then `set` brings it to the wanted parameters through the handle
+	fn new_set<B: EffectBuilder>(other: B, sr: u32, set: impl FnOnce(&mut B::Handle)) -> Fx
+	where
+		B::Handle: 'static,
+	{
+		let (mut e, mut handle) = other.build();
+		e.init(sr, IBS);
+		set(&mut handle);
+		let mut fx = Fx { e, dt: 1.0 / sr as f64, info: MockInfoBuilder::new().build(), _handle: Some(Box::new(handle)) };
+		let mut z = [Frame::ZERO; 1];
+		fx.process(&mut z);
+		fx
 	}
 	fn process(&mut self, buf: &mut [Frame]) {
 		for c in buf.chunks_mut(IBS) {
@@ -422,7 +448,7 @@ fn run_filter(tier: Tier, mode: FilterMode, sr: u32, ctx: &mut Ctx) {
 				let c = SosCase {
 					eff: "filter",
 					feature: format!("mode={:?}{}", mode, clamp),
-					detail: format!("FilterBuilder mode={:?} cutoff={} Hz resonance={} mix={} sample_rate={}", mode, fc, res, mix, sr),
+					detail: format!("FilterBuilder mode={:?} cutoff={} Hz resonance={} mix={} sample_rate={}{}", mode, fc, res, mix, sr, via_tag()),
 					sr,
 					sos,
 					clamped: low.then(|| Sos { g: (PI * 1e-4).tan(), ..sos }),
@@ -434,7 +460,19 @@ fn run_filter(tier: Tier, mode: FilterMode, sr: u32, ctx: &mut Ctx) {
 						_ => vec![],
 					},
 				};
-				let mk = |r: u32| Fx::new(FilterBuilder::new().mode(mode).cutoff(fc).resonance(res).mix(Mix(mix)), r);
+				let mk = |r: u32| {
+					if via() {
+						let other = MODES[(MODES.iter().position(|m| *m == mode).unwrap() + 1) % MODES.len()];
+						Fx::new_set(FilterBuilder::new().mode(other).cutoff(1234.0).resonance(0.3).mix(Mix(0.3)), r, |h| {
+							h.set_mode(mode);
+							h.set_cutoff(fc, NOW);
+							h.set_resonance(res, NOW);
+							h.set_mix(Mix(mix), NOW);
+						})
+					} else {
+						Fx::new(FilterBuilder::new().mode(mode).cutoff(fc).resonance(res).mix(Mix(mix)), r)
+					}
+				};
 				if let Err(p) = catch(|| check_sos(&c, &mk, ctx)) {
 					ctx.fail(format!("panic: {} :: filter {}", p, c.feature), c.detail.clone());
 				}
@@ -470,7 +508,7 @@ fn run_eq(tier: Tier, kind: EqFilterKind, sr: u32, q: f64, ctx: &mut Ctx) {
 				let c = SosCase {
 					eff: "eq",
 					feature: format!("kind={:?}{}", kind, clamp),
-					detail: format!("EqFilterBuilder kind={:?} frequency={} Hz gain={} dB q={} sample_rate={}", kind, fc, gain, q, sr),
+					detail: format!("EqFilterBuilder kind={:?} frequency={} Hz gain={} dB q={} sample_rate={}{}", kind, fc, gain, q, sr, via_tag()),
 					sr,
 					sos: design(fc / sr as f64),
 					clamped: low.then(|| design(1e-4)),
@@ -493,7 +531,19 @@ fn run_eq(tier: Tier, kind: EqFilterKind, sr: u32, q: f64, ctx: &mut Ctx) {
 						],
 					},
 				};
-				let mk = |r: u32| Fx::new(EqFilterBuilder::new(kind, fc, Decibels(gain), q), r);
+				let mk = |r: u32| {
+					if via() {
+						let other = KINDS[(KINDS.iter().position(|k| *k == kind).unwrap() + 1) % KINDS.len()];
+						Fx::new_set(EqFilterBuilder::new(other, 1234.0, Decibels(4.5), 1.3), r, |h| {
+							h.set_kind(kind);
+							h.set_frequency(fc, NOW);
+							h.set_gain(Decibels(gain), NOW);
+							h.set_q(q, NOW);
+						})
+					} else {
+						Fx::new(EqFilterBuilder::new(kind, fc, Decibels(gain), q), r)
+					}
+				};
 				if let Err(p) = catch(|| check_sos(&c, &mk, ctx)) {
 					ctx.fail(format!("panic: {} :: eq {}", p, c.feature), c.detail.clone());
 				}
@@ -535,18 +585,26 @@ fn run_delay(tier: Tier, sr: u32, ctx: &mut Ctx) {
 		for fb_db in [-60.0f32, -12.0, -6.0, 0.0] {
 			for mix in [0.0f32, 0.5, 1.0] {
 				for fxk in 0..DELAY_FX.len() {
-					let detail = format!("DelayBuilder delay_time={} us feedback={} dB mix={} feedback_effect={} sample_rate={}", us, fb_db, mix, DELAY_FX[fxk], sr);
+					let detail = format!("DelayBuilder delay_time={} us feedback={} dB mix={} feedback_effect={} sample_rate={}{}", us, fb_db, mix, DELAY_FX[fxk], sr, via_tag());
 					let product = us as u128 * 1000 * sr as u128;
 					// delay_time * sample_rate rounded to the nearest whole frame, at least one frame (exact integer arithmetic)
 					let d_exact = (((product + 500_000_000) / 1_000_000_000) as usize).max(1);
 					let mk = || {
-						let b = DelayBuilder::new().delay_time(Duration::from_micros(us)).feedback(Decibels(fb_db)).mix(Mix(mix));
+						let b = DelayBuilder::new().delay_time(Duration::from_micros(us));
+						let b = if via() { b.feedback(Decibels(-20.0)).mix(Mix(0.3)) } else { b.feedback(Decibels(fb_db)).mix(Mix(mix)) };
 						let b = match fxk {
 							1 => b.with_feedback_effect(VolumeControlBuilder::new(Decibels(-3.0))),
 							2 => b.with_feedback_effect(FilterBuilder::new().cutoff(0.1 * sr as f64)),
 							_ => b,
 						};
-						Fx::new(b, sr)
+						if via() {
+							Fx::new_set(b, sr, |h| {
+								h.set_feedback(Decibels(fb_db), NOW);
+								h.set_mix(Mix(mix), NOW);
+							})
+						} else {
+							Fx::new(b, sr)
+						}
 					};
 					let r = catch(|| {
 						let fb = amp(fb_db);
@@ -673,8 +731,19 @@ fn run_reverb(tier: Tier, sr: u32, feedback: f64, ctx: &mut Ctx) {
 	for &damping in dampings {
 		for &width in widths {
 			for mix in [0.5f32, 1.0] {
-				let detail = format!("ReverbBuilder feedback={} damping={} stereo_width={} mix={} sample_rate={}", feedback, damping, width, mix, sr);
-				let mk = || Fx::new(ReverbBuilder::new().feedback(feedback).damping(damping).stereo_width(width).mix(Mix(mix)), sr);
+				let detail = format!("ReverbBuilder feedback={} damping={} stereo_width={} mix={} sample_rate={}{}", feedback, damping, width, mix, sr, via_tag());
+				let mk = || {
+					if via() {
+						Fx::new_set(ReverbBuilder::new().feedback(0.3).damping(0.7).stereo_width(0.3).mix(Mix(0.3)), sr, |h| {
+							h.set_feedback(feedback, NOW);
+							h.set_damping(damping, NOW);
+							h.set_stereo_width(width, NOW);
+							h.set_mix(Mix(mix), NOW);
+						})
+					} else {
+						Fx::new(ReverbBuilder::new().feedback(feedback).damping(damping).stereo_width(width).mix(Mix(mix)), sr)
+					}
+				};
 				let r = catch(|| {
 					const NWIN: usize = 8;
 					let win = 2 * longest;
@@ -781,8 +850,22 @@ fn run_comp(tier: Tier, sr: u32, threshold: f64, ctx: &mut Ctx) {
 				for makeup in [0.0f32, 6.0] {
 					for mix in [1.0f32, 0.5] {
 						let c = Comp { threshold, ratio, attack, release, makeup, mix };
-						let cfg = format!("CompressorBuilder threshold={} dB ratio={} attack={} s release={} s makeup_gain={} dB mix={} sample_rate={}", threshold, ratio, attack, release, makeup, mix, sr);
+						let cfg = format!("CompressorBuilder threshold={} dB ratio={} attack={} s release={} s makeup_gain={} dB mix={} sample_rate={}{}", threshold, ratio, attack, release, makeup, mix, sr, via_tag());
 						let mk = || {
+							if via() {
+								return Fx::new_set(
+									CompressorBuilder::new().threshold(-13.0).ratio(3.0).attack_duration(Duration::from_millis(3)).release_duration(Duration::from_millis(30)).makeup_gain(Decibels(1.5)).mix(Mix(0.3)),
+									sr,
+									|h| {
+										h.set_threshold(threshold, NOW);
+										h.set_ratio(ratio, NOW);
+										h.set_attack_duration(Duration::from_secs_f64(attack), NOW);
+										h.set_release_duration(Duration::from_secs_f64(release), NOW);
+										h.set_makeup_gain(Decibels(makeup), NOW);
+										h.set_mix(Mix(mix), NOW);
+									},
+								);
+							}
 							Fx::new(
 								CompressorBuilder::new()
 									.threshold(threshold)
@@ -911,9 +994,19 @@ fn run_distortion(tier: Tier, ctx: &mut Ctx) {
 	for kind in [DistortionKind::HardClip, DistortionKind::SoftClip] {
 		for &drive in drives {
 			for mix in [0.0f32, 0.25, 0.5, 1.0] {
-				let detail = format!("DistortionBuilder kind={:?} drive={} dB mix={}; input frames {:?}", kind, drive, mix, x);
+				let detail = format!("DistortionBuilder kind={:?} drive={} dB mix={}{}; input frames {:?}", kind, drive, mix, via_tag(), x);
 				let r = catch(|| {
-					let y = Fx::new(DistortionBuilder::new().kind(kind).drive(Decibels(drive)).mix(Mix(mix)), 48000).run(&x);
+					let mut fx = if via() {
+						let other = if kind == DistortionKind::HardClip { DistortionKind::SoftClip } else { DistortionKind::HardClip };
+						Fx::new_set(DistortionBuilder::new().kind(other).drive(Decibels(3.5)).mix(Mix(0.3)), 48000, |h| {
+							h.set_kind(kind);
+							h.set_drive(Decibels(drive), NOW);
+							h.set_mix(Mix(mix), NOW);
+						})
+					} else {
+						Fx::new(DistortionBuilder::new().kind(kind).drive(Decibels(drive)).mix(Mix(mix)), 48000)
+					};
+					let y = fx.run(&x);
 					note(ctx, &x, &y);
 					if !finite(&y) {
 						ctx.fail(format!("distortion: output not finite :: drive{}-60dB", if drive <= -60.0 { "<=" } else { ">" }), detail.clone());
@@ -961,9 +1054,10 @@ fn run_gain(tier: Tier, ctx: &mut Ctx) {
 	let x = level_frames();
 	let dbs: &[f32] = tier.pick(&[-100.0, -60.0, -59.9, -40.0, -6.0, -0.1, 0.0, 6.0, 20.0], &[-100.0, -60.0, -59.9, -40.0, -20.0, -12.0, -6.0, -3.0, -0.1, 0.0, 0.1, 3.0, 6.0, 12.0, 20.0, 40.0]);
 	for &v in dbs {
-		let detail = format!("VolumeControlBuilder({} dB); input frames {:?}", v, x);
+		let detail = format!("VolumeControlBuilder({} dB){}; input frames {:?}", v, via_tag(), x);
 		let r = catch(|| {
-			let y = Fx::new(VolumeControlBuilder::new(Decibels(v)), 48000).run(&x);
+			let mut fx = if via() { Fx::new_set(VolumeControlBuilder::new(Decibels(-7.5)), 48000, |h| h.set_volume(Decibels(v), NOW)) } else { Fx::new(VolumeControlBuilder::new(Decibels(v)), 48000) };
+			let y = fx.run(&x);
 			note(ctx, &x, &y);
 			let a = if v <= -60.0 { 0.0 } else { 10.0f64.powf(v as f64 / 20.0) };
 			for i in 0..x.len() {
@@ -1028,7 +1122,8 @@ fn run_gain(tier: Tier, ctx: &mut Ctx) {
 	let gains = |p: f32| -> Result<[f64; 2], String> {
 		catch(|| {
 			let xin = [[0.5f32, 0.25f32]];
-			let y = Fx::new(PanningControlBuilder(Value::Fixed(Panning(p))), 48000).run(&xin);
+			let mut fx = if via() { Fx::new_set(PanningControlBuilder(Value::Fixed(Panning(0.3))), 48000, |h| h.set_panning(Panning(p), NOW)) } else { Fx::new(PanningControlBuilder(Value::Fixed(Panning(p))), 48000) };
+			let y = fx.run(&xin);
 			[y[0][0] as f64 / 0.5, y[0][1] as f64 / 0.25]
 		})
 	};
@@ -1131,7 +1226,7 @@ impl Check for C14 {
 	}
 	fn assumptions(&self) -> Vec<String> {
 		vec![
-			"parameters are fixed values (tweened parameters belong to C06/C13)".into(),
+			"parameters are fixed values (tweened parameters belong to C06/C13); every lattice point is reached twice: through the builder, and through the handle's setters of an effect built with other parameters".into(),
 			"sample-by-sample tolerance 1e-5 of the peak; sine gain tolerance 0.1 dB plus an absolute floor of 2e-5 (-94 dB) for f32 state noise".into(),
 			"compressor signals have the same magnitude on both channels, so that linked and unlinked level detectors are both accepted".into(),
 			"the pan law is judged by constant power, hard ends, unity centre, mirror symmetry and monotonicity, not by a particular formula".into(),
@@ -1145,14 +1240,18 @@ impl Check for C14 {
 	fn run_case(&self, tier: Tier, idx: u64, ctx: &mut Ctx) {
 		let case = cases(tier)[idx as usize];
 		ctx.sample(idx, || self.describe(tier, idx));
-		match case {
-			Case::Filter(m, sr) => run_filter(tier, m, sr, ctx),
-			Case::Eq(k, sr, q) => run_eq(tier, k, sr, q, ctx),
-			Case::Delay(sr) => run_delay(tier, sr, ctx),
-			Case::Reverb(sr, f) => run_reverb(tier, sr, f, ctx),
-			Case::Comp(sr, t) => run_comp(tier, sr, t, ctx),
-			Case::Distortion => run_distortion(tier, ctx),
-			Case::Gain => run_gain(tier, ctx),
+		for pass in [false, true] {
+			VIA_HANDLE.with(|v| v.set(pass));
+			match case {
+				Case::Filter(m, sr) => run_filter(tier, m, sr, ctx),
+				Case::Eq(k, sr, q) => run_eq(tier, k, sr, q, ctx),
+				Case::Delay(sr) => run_delay(tier, sr, ctx),
+				Case::Reverb(sr, f) => run_reverb(tier, sr, f, ctx),
+				Case::Comp(sr, t) => run_comp(tier, sr, t, ctx),
+				Case::Distortion => run_distortion(tier, ctx),
+				Case::Gain => run_gain(tier, ctx),
+			}
 		}
+		VIA_HANDLE.with(|v| v.set(false));
 	}
 }
